@@ -360,7 +360,27 @@ func streamOrder(o *Out, r *rand.Rand, n int, thorough bool) {
 			d := 1 + r.Intn(3)
 			var stmt string
 			bad := false
-			switch r.Intn(7) {
+			switch r.Intn(8) {
+			case 7: // go call of a script function: the caller evaluates the arguments once, in order, before the goroutine starts
+				np := 1 + r.Intn(6)
+				ks := make([]*onode, np)
+				for a := range ks {
+					ks[a] = g.intExpr(d)
+				}
+				fn := fmt.Sprintf("f%d", np)
+				switch r.Intn(4) {
+				case 0:
+					fn = "gv"
+				case 1:
+					fn = "func(" + strings.Join([]string{"a", "b", "c", "d", "e", "f"}[:np], ", ") + ") { return a }"
+				}
+				stmt = "go " + fn + "(" + joinKids(ks) + ")"
+				for _, k := range ks {
+					if _, bd := k.ref(&want); bd {
+						bad = true
+						break
+					}
+				}
 			case 0: // list literal
 				ks := []*onode{g.intExpr(d), g.intExpr(d), g.intExpr(d)}
 				stmt = "[" + joinKids(ks) + "]"
